@@ -1306,6 +1306,12 @@ class DiskRefsContainer(RefsContainer):
             if packed_refs.get(probe_ref, None) is not None:
                 raise NotADirectoryError(filename)
             probe_ref = Ref(os.path.dirname(probe_ref))
+        # ... and that no ref below this name lives only in packed refs,
+        # where no directory on disk would stand in the way
+        prefix = realname + b"/"
+        for packed_name in packed_refs:
+            if packed_name.startswith(prefix):
+                raise IsADirectoryError(filename)
 
         ensure_dir_exists(os.path.dirname(filename))
         with GitFile(filename, "wb") as f:
@@ -1391,6 +1397,12 @@ class DiskRefsContainer(RefsContainer):
             if packed_refs.get(probe_ref, None) is not None:
                 raise NotADirectoryError(filename)
             probe_ref = Ref(os.path.dirname(probe_ref))
+        # ... and that no ref below this name lives only in packed refs,
+        # where no directory on disk would stand in the way
+        prefix = realname + b"/"
+        for packed_name in packed_refs:
+            if packed_name.startswith(prefix):
+                raise IsADirectoryError(filename)
 
         ensure_dir_exists(os.path.dirname(filename))
         with GitFile(filename, "wb") as f:
